@@ -30,17 +30,27 @@ def plan(tier, seed):
     n = 400 if tier == "quick" else 15000
     per = 25 if tier == "quick" else 250
     nops = 15 if tier == "quick" else 40
-    return [{"lo": lo, "hi": min(n, lo + per), "nops": nops} for lo in range(0, n, per)]
+    return [{"lo": lo, "hi": min(n, lo + per), "nops": nops} for lo in range(0, n, per)] + [{"kind": "suite"}]
 
 
 def run_unit(unit, tier, seed, acc):
     from vlib import histories
+
+    if unit.get("kind") == "suite":  # the repository's own tests as one more workload for this property's monitor
+        from vlib import suite
+
+        return suite.run_suite_unit(ID, acc)
 
     histories.run_histories("ids", {"C06"}, unit, tier, seed, acc, save_every=5)
 
 
 def replay(w, acc):
     from vlib import histories
+
+    if "suite_test" in w:
+        from vlib import suite
+
+        return suite.replay_suite(w, acc, ID)
 
     histories.replay_history(dict(w, save_every=5), acc, {"C06"})
     print([(v["key"], v["what"][:300]) for v in acc.violations])
